@@ -1,0 +1,77 @@
+#ifndef OSMIUM_VERIF_HOOKS_HPP
+#define OSMIUM_VERIF_HOOKS_HPP
+
+/*
+
+This file is part of Osmium (https://osmcode.org/libosmium).
+
+Instrumentation points for model-based conformance checking. Everything
+in here is inactive unless OSMIUM_VERIF is defined. With OSMIUM_VERIF
+defined but no sink installed each hook costs one relaxed atomic load.
+
+*/
+
+#ifdef OSMIUM_VERIF
+
+#include <atomic>
+#include <cstddef>
+#include <cstdint>
+
+namespace osmium {
+
+    namespace verif {
+
+        /**
+         * An event at a linearization point. The sink is called while the
+         * lock protecting the change (if any) is still held.
+         *
+         * @param object  The object (queue, pool, reader, ...) the event is about.
+         * @param event   Static string naming the event.
+         * @param ptr     Optional pointer to event specific data (for instance
+         *                the queue element).
+         * @param value   Optional scalar (for instance the queue size).
+         */
+        using event_sink_type = void (*)(const void* object, const char* event, const void* ptr, std::int64_t value);
+
+        /// Called at points where a schedule perturbation is useful.
+        using sched_sink_type = void (*)(const char* point);
+
+        inline std::atomic<event_sink_type>& event_sink() noexcept {
+            static std::atomic<event_sink_type> sink{nullptr};
+            return sink;
+        }
+
+        inline std::atomic<sched_sink_type>& sched_sink() noexcept {
+            static std::atomic<sched_sink_type> sink{nullptr};
+            return sink;
+        }
+
+        inline void event(const void* object, const char* name, const void* ptr, std::int64_t value) {
+            const auto sink = event_sink().load(std::memory_order_relaxed);
+            if (sink) {
+                sink(object, name, ptr, value);
+            }
+        }
+
+        inline void sched(const char* point) {
+            const auto sink = sched_sink().load(std::memory_order_relaxed);
+            if (sink) {
+                sink(point);
+            }
+        }
+
+    } // namespace verif
+
+} // namespace osmium
+
+# define OSMIUM_VERIF_EVENT(object, name, ptr, value) ::osmium::verif::event((object), (name), (ptr), static_cast<std::int64_t>(value))
+# define OSMIUM_VERIF_SCHED(point) ::osmium::verif::sched(point)
+
+#else
+
+# define OSMIUM_VERIF_EVENT(object, name, ptr, value) static_cast<void>(0)
+# define OSMIUM_VERIF_SCHED(point) static_cast<void>(0)
+
+#endif // OSMIUM_VERIF
+
+#endif // OSMIUM_VERIF_HOOKS_HPP
